@@ -123,7 +123,9 @@ Universe == <<
     Cls("Trk", <<>>, NoAnn, <<Mth("pt", FloatT), Mth("q", IntT)>>),
     Cls("Jet", <<>>, NoAnn, <<Mth("pt", FloatT), Mth("n", IntT), Mth("good", BoolT),
                               Mth("trks", Iter(Ty0("Trk"))), Mth("noann", NoAnn)>>),
-    Cls("Box", <<"T">>, NoAnn, <<Mth("item", TVar("T")), Mth("items", Iter(TVar("T"))), Mth("size", IntT)>>),
+    Cls("Box", <<"T">>, NoAnn, <<Mth("item", TVar("T")), Mth("items", Iter(TVar("T"))), Mth("size", IntT),
+                                 \* the class type variable two layers deep / inside another generic class
+                                 Mth("nested", Iter(Iter(TVar("T")))), Mth("boxes", Iter(Ty("Box", <<TVar("T")>>)))>>),
     Cls("JetBox", <<>>, Ty("Box", <<Ty0("Jet")>>), <<Mth("extra", IntT)>>),
     Cls("Re", <<"U">>, Ty("Box", <<Iter(TVar("U"))>>), <<Mth("one", TVar("U"))>>),
     Cls("MyIter", <<"T">>, Iter(TVar("T")), <<Mth("Last", TVar("T"))>>),
@@ -254,7 +256,10 @@ CbKinds(pl) == CASE pl = "class" -> <<"class">>
                  [] pl = "both" -> <<"class", "method">>
                  [] pl = "func" -> <<"func">>
                  [] OTHER -> <<"param">>
-Sites(cs) == IF cs.two THEN <<101, 102>> ELSE <<101>>
+(* alias: the two sites are ONE shared call node occurring twice in the lambda body (what inlining a helper *)
+(* that uses its parameter twice produces): two call sites with the same id                               *)
+Sites(cs) == IF cs.two THEN (IF cs.alias THEN <<101, 101>> ELSE <<101, 102>>) ELSE <<101>>
+SitesWith(cs, site) == Cardinality({i \in 1..Len(Sites(cs)) : Sites(cs)[i] = site})
 (* the planned firings: per site, its callbacks in order *)
 CallbackPlan(cs) == [i \in 1..Len(Sites(cs)) |-> [site |-> Sites(cs)[i], cbs |-> CbKinds(cs.pl)]]
 PlannedPairs(cs) == {<<CbKinds(cs.pl)[j], Sites(cs)[i]>> : i \in 1..Len(Sites(cs)), j \in 1..Len(CbKinds(cs.pl))}
